@@ -101,6 +101,34 @@ def gen_shared(rng):
     return [("decl", "a", ("choice", av, None))] + ([first, second] if rng.random() < 0.7 else [second, first])
 
 
+def gen_shared2(rng):
+    """a name shared by sibling conditional scopes, with further conditional scopes nested below each copy: whether a leaf is
+    active depends on its WHOLE chain of conditions (kind == k1 and depth in D1), not on the innermost one"""
+    ks = rng.sample(["x", "y", "z"], rng.randint(2, 3))
+    dom = [0, 1, 2, 3]
+    depth = ("int", 0, 3, rng.choice([None, 1, 2])) if rng.random() < 0.5 else ("choice", dom, None)
+    prog = [("decl", "a", ("choice", ks, None))]
+    leaves = iter(["b", "c", "d", "e"])
+    branches = []
+    for k in ks[: rng.randint(2, len(ks))]:
+        body = [("decl", "n", depth)]
+        for _ in range(rng.randint(1, 2)):
+            vs = rng.sample(dom, rng.randint(1, 2))
+            leaf = next(leaves, None)
+            if leaf is None:
+                break
+            inner = [gen_decl(rng, names=[leaf])]
+            if rng.random() < 0.4:
+                ld = domain(inner[0][2])
+                inner.append(("cond", rng.random() < 0.6, leaf, rng.sample(ld, 1), [gen_decl(rng, names=["e"])]))
+            body.append(("cond", rng.random() < 0.7, "n", vs, inner))
+            if rng.random() < 0.3:
+                body.append(("get", leaf))
+        branches.append(("cond", rng.random() < 0.8, "a", [k], body))
+    rng.shuffle(branches)
+    return prog + branches
+
+
 def default_of(spec):
     k = spec[0]
     if k == "int": return spec[3] if spec[3] is not None else spec[1]
@@ -203,7 +231,7 @@ def clog(log, I):
 def case_container(seed):
     from keras_tuner.engine import hyperparameters as hpm
     rng = random.Random(seed); I = emit.Intern()
-    prog = gen_prog(rng)
+    prog = gen_prog(rng) if rng.random() < 0.8 else gen_shared2(rng)
     del VIOL[:]
     hp = hpm.HyperParameters()
     log1 = []; raised1 = False
@@ -257,7 +285,7 @@ def case_discovery(seed, allow, tune, predeclare):
     rng = random.Random(seed); I = emit.Intern()
     for _ in range(50):
         r0 = rng.random()
-        prog = gen_tree(rng) if r0 < 0.7 else gen_shared(rng) if r0 < 0.8 else gen_prog(rng)
+        prog = gen_tree(rng) if r0 < 0.65 else gen_shared(rng) if r0 < 0.72 else gen_shared2(rng) if r0 < 0.82 else gen_prog(rng)
         hp = hpm.HyperParameters()
         try:
             run_prog(hp, prog, []); break
